@@ -76,13 +76,13 @@ fn gen_status(t: &mut Tape) -> String {
     match t.weighted(&[4, 3, 1]) {
         0 => "ok".into(),
         1 => t.pick(STATUSES).to_string(),
-        _ => t.text(10),
+        _ => t.text_mixed(10),
     }
 }
 
 pub fn gen_extra_value(t: &mut Tape, depth: usize) -> J {
     match t.choose(if depth == 0 { 6 } else { 8 }) {
-        0 => J::S(t.text(8)),
+        0 => J::S(t.text_mixed(8)),
         1 => J::Bool(t.flag()),
         2 => J::U(t.u64_biased()),
         3 => J::I(t.i64_biased()),
@@ -92,7 +92,7 @@ pub fn gen_extra_value(t: &mut Tape, depth: usize) -> J {
         _ => {
             let mut keys: Vec<String> = vec![];
             J::O(t.vec_of(3, |t| {
-                let mut k = t.text(5);
+                let mut k = t.text_mixed(5);
                 while keys.contains(&k) {
                     k.push('_');
                 }
@@ -114,7 +114,7 @@ pub fn gen_extras(t: &mut Tape, reserved: &[&str], max: usize) -> Vec<(String, J
                 "extra_attributes", "fingerprint", "elapsed_days", "elapsed_seconds", "version", "codebase", "url", "action", "package", "date_last_active", "Cohort", "info", "run",
             ]))
             .to_string(),
-            _ => t.text(6),
+            _ => t.text_mixed(6),
         };
         while reserved.contains(&k.as_str()) || out.iter().any(|(e, _)| *e == k) {
             k.push('_');
@@ -129,18 +129,18 @@ fn opt_text(t: &mut Tape) -> Option<String> {
     match t.weighted(&[3, 1, 3]) {
         0 => None,
         1 => Some(String::new()),
-        _ => Some(t.text(10)),
+        _ => Some(t.text_mixed(10)),
     }
 }
 
 pub fn gen_pkg(t: &mut Tape) -> XPkg {
     XPkg {
-        name: t.text(12),
+        name: t.text_mixed(12),
         required: t.flag(),
         size: t.option(|t| t.u64_biased()),
         hash: opt_text(t),
         hash_sha256: opt_text(t),
-        fp: t.text(10),
+        fp: t.text_mixed(10),
         extra: gen_extras(t, &["name", "required", "size", "hash", "hash_sha256", "fp"], 2),
     }
 }
@@ -150,7 +150,7 @@ pub fn gen_manifest(t: &mut Tape) -> XMan {
         version: match t.choose(3) {
             0 => "1.2.3.4".to_string(),
             1 => format!("{}.{}", t.choose(100), t.choose(100)),
-            _ => t.text(8),
+            _ => t.text_mixed(8),
         },
         actions: t.vec_of(3, |t| XAction { event: opt_text(t), run: opt_text(t), extra: gen_extras(t, &["event", "run"], 2) }),
         packages: t.vec_of(3, gen_pkg),
@@ -163,7 +163,7 @@ pub fn gen_uc(t: &mut Tape) -> XUc {
     XUc {
         status,
         info: opt_text(t),
-        urls: if full || t.flag() { Some(t.vec_of(3, |t| format!("http://{}/{}", t.ident(6), t.text(4)))) } else { None },
+        urls: if full || t.flag() { Some(t.vec_of(3, |t| format!("http://{}/{}", t.ident(6), t.text_mixed(4)))) } else { None },
         manifest: if full || t.chance(1, 4) { Some(gen_manifest(t)) } else { None },
         extra: gen_extras(t, &["status", "info", "urls", "manifest"], 2),
     }
@@ -184,14 +184,14 @@ pub fn gen_app(t: &mut Tape, id: String) -> XApp {
 pub fn gen_xresp(t: &mut Tape) -> XResp {
     let napps = t.choose(5);
     XResp {
-        protocol: if t.chance(1, 8) { t.text(4) } else { "3.0".into() },
+        protocol: if t.chance(1, 8) { t.text_mixed(4) } else { "3.0".into() },
         server: opt_text(t),
         daystart: t.option(|t| (t.option(|t| t.u32_biased()), t.option(|t| t.u32_biased()))),
         apps: (0..napps)
             .map(|i| {
                 let id = match t.choose(3) {
                     0 => format!("{{00000000-0000-0000-0000-00000000000{i}}}"),
-                    1 => t.text(10),
+                    1 => t.text_mixed(10),
                     _ => format!("app{i}"),
                 };
                 gen_app(t, id)
